@@ -9,6 +9,19 @@ class CMakeSyntaxError(SyntaxError):
     pass
 
 
+class LexerErrorListener(ErrorListener):
+    """
+    Raises on every token recognition error instead of letting the lexer
+    silently skip the offending characters.
+    """
+
+    def syntaxError(self, recognizer, offendingSymbol, line, column, msg, e):
+        s = CMakeSyntaxError()
+        s.lineno = f"{line}:{column}"
+        s.msg = msg
+        raise s
+
+
 class ParserErrorListener(ErrorListener):
     """
     Listens for parser errors and raises exceptions when they occur.
